@@ -515,4 +515,246 @@ example : degIn (tile 4 GenT.trinon_edges GenT.trinon_crossing 2 3) 17 = 3 := by
 
 end Tiling
 
+section HoneycombColouring
+open G10
+
+abbrev CE := ((Nat × Nat) × (Int × Int)) × Nat
+
+/-- the edges of `honeycomb_lattice` paired with the colours of the supplied colouring, family by family -/
+def honeycombColoured (nh nv : Nat) : List CE :=
+  let cs := cells nh nv
+  (cs.flatMap fun n => [(((4 * n, 4 * n + 1), (0, 0)), 0), (((4 * n + 2, 4 * n + 1), (0, 0)), 2), (((4 * n + 2, 4 * n + 3), ((0 : Int), (0 : Int))), 0)]) ++
+  ((cs.map fun n => (((2 + 4 * n, 1 + 4 * nc nh nv n 1 0), ((if lastCol nh n then 1 else 0), (0 : Int))), 1)) ++
+  (cs.map fun n => (((4 * nc nh nv n 0 1, 3 + 4 * n), ((0 : Int), (if lastRow nh nv n then -1 else 0))), 1))) ++
+  (cs.map fun n => (((4 * nc nh nv n 1 1, 3 + 4 * n), ((if lastCol nh n then -1 else 0), (if lastRow nh nv n then -1 else 0))), 2))
+
+theorem zip_flatMap3 {α β : Type} (l : List Nat) (f1 f2 f3 : Nat → α) (c1 c2 c3 : β) :
+    (l.flatMap fun n => [f1 n, f2 n, f3 n]).zip (l.flatMap fun _ => [c1, c2, c3])
+      = l.flatMap fun n => [(f1 n, c1), (f2 n, c2), (f3 n, c3)] := by
+  induction l with
+  | nil => simp
+  | cons x xs ih => simp [List.flatMap_cons, ih]
+
+theorem zip_map_pair11 {α : Type} (l : List Nat) (f g : Nat → α) (c : Nat) :
+    (l.map f ++ l.map g).zip (l.flatMap fun _ => [c, c]) = (l.map fun n => (f n, c)) ++ (l.map fun n => (g n, c)) := by
+  have hrep : ∀ m : List Nat, (m.flatMap fun _ => [c, c]) = List.replicate (2 * m.length) c := by
+    intro m
+    induction m with
+    | nil => simp
+    | cons x xs ih =>
+      rw [List.flatMap_cons, ih, List.length_cons, Nat.mul_succ, Nat.add_comm, List.replicate_add]
+      rfl
+  have hz : ∀ (m : List α) (k : Nat), m.length ≤ k → m.zip (List.replicate k c) = m.map fun a => (a, c) := by
+    intro m
+    induction m with
+    | nil => intro k _; simp
+    | cons a as ih =>
+      intro k hk
+      obtain ⟨k', rfl⟩ : ∃ k', k = k' + 1 := ⟨k - 1, by simp at hk; omega⟩
+      rw [List.replicate_succ, List.zip_cons_cons, ih k' (by simp at hk; omega)]
+      rfl
+  rw [hrep, hz _ _ (by simp; omega)]
+  simp [List.map_append, List.map_map, Function.comp_def]
+
+/-- the zip of the generated edge list with the generated colour list is the family-wise pairing -/
+theorem honeycomb_zip (nh nv : Nat) : (honeycomb nh nv).zip (honeycombColouring nh nv) = honeycombColoured nh nv := by
+  unfold honeycomb honeycombColouring honeycombColoured
+  simp only []
+  rw [List.append_assoc, List.append_assoc, List.append_assoc, List.append_assoc]
+  rw [List.zip_append (by simp)]
+  rw [← List.append_assoc (List.map _ _) (List.map _ _) (List.map _ _)]
+  rw [List.zip_append (by simp; omega)]
+  rw [zip_flatMap3, zip_map_pair11]
+  congr 1
+  congr 1
+  generalize cells nh nv = l
+  induction l with
+  | nil => simp
+  | cons x xs ih => simp only [List.map_cons, List.zip_cons_cons, ih]
+
+/-- the ends of coloured edges, coded as `3·vertex + colour` -/
+def colEnds (zs : List CE) : List Nat := (zs.map fun z => 3 * z.1.1.1 + z.2) ++ (zs.map fun z => 3 * z.1.1.2 + z.2)
+
+theorem colEnds_append (a b : List CE) (w : Nat) : (colEnds (a ++ b)).count w = (colEnds a).count w + (colEnds b).count w := by
+  unfold colEnds; simp only [List.map_append, List.count_append]; omega
+
+/-- the code count is the number of edge ends at `v` coloured `k` -/
+theorem colEnds_count (zs : List CE) (hc : ∀ z ∈ zs, z.2 < 3) (v k : Nat) (hk : k < 3) :
+    (colEnds zs).count (3 * v + k)
+      = zs.countP (fun z => decide (z.1.1.1 = v ∧ z.2 = k)) + zs.countP (fun z => decide (z.1.1.2 = v ∧ z.2 = k)) := by
+  unfold colEnds
+  rw [List.count_append]
+  congr 1
+  · rw [List.count_eq_countP, List.countP_map]
+    apply List.countP_congr
+    intro z hz
+    have := hc z hz
+    simp only [Function.comp, beq_iff_eq, decide_eq_true_eq]
+    omega
+  · rw [List.count_eq_countP, List.countP_map]
+    apply List.countP_congr
+    intro z hz
+    have := hc z hz
+    simp only [Function.comp, beq_iff_eq, decide_eq_true_eq]
+    omega
+
+theorem cnt12 (nh nv : Nat) (l : List Nat) (hl : l.Perm (cells nh nv)) (b q k : Nat) (hq : q < nh * nv) (hk : k < 12) (hb : b < 12) :
+    (l.map fun n => b + 12 * n).count (12 * q + k) = if b = k then 1 else 0 := by
+  rw [count_map_affine l 12 b (12 * q + k) (by decide)]
+  by_cases hbk : b = k
+  · subst hbk
+    have h1 : b ≤ 12 * q + b ∧ (12 * q + b - b) % 12 = 0 := ⟨by omega, by omega⟩
+    have h2 : (12 * q + b - b) / 12 = q := by omega
+    rw [if_pos h1, h2, if_pos rfl, hl.count_eq, count_cells nh nv q hq]
+  · have h1 : ¬ (b ≤ 12 * q + k ∧ (12 * q + k - b) % 12 = 0) := by
+      rintro ⟨h, h'⟩; omega
+    rw [if_neg h1, if_neg hbk]
+
+theorem honeycombColoured_codes (nh nv : Nat) (hh : 0 < nh) (hv : 0 < nv) (w : Nat) (hw : w < 12 * (nh * nv)) :
+    (colEnds (honeycombColoured nh nv)).count w = 1 := by
+  obtain ⟨q, k, hk, rfl⟩ : ∃ q k, k < 12 ∧ w = 12 * q + k := ⟨w / 12, w % 12, Nat.mod_lt _ (by decide), by omega⟩
+  have hq : q < nh * nv := by omega
+  have pid : (cells nh nv).Perm (cells nh nv) := List.Perm.refl _
+  have p10 := nc_perm nh nv hh hv 1 0
+  have p01 := nc_perm nh nv hh hv 0 1
+  have p11 := nc_perm nh nv hh hv 1 1
+  unfold honeycombColoured
+  simp only [colEnds_append]
+  unfold colEnds
+  simp only [List.map_flatMap, List.map_map, List.map_cons, List.map_nil, Function.comp_def, List.count_append]
+  rw [count_flatMap3, count_flatMap3]
+  have a1 : ((cells nh nv).map fun n => 3 * (4 * n) + 0) = (cells nh nv).map fun n => 0 + 12 * n := by
+    apply List.map_congr_left; intro n _; omega
+  have a2 : ((cells nh nv).map fun n => 3 * (4 * n + 2) + 2) = (cells nh nv).map fun n => 8 + 12 * n := by
+    apply List.map_congr_left; intro n _; omega
+  have a3 : ((cells nh nv).map fun n => 3 * (4 * n + 2) + 0) = (cells nh nv).map fun n => 6 + 12 * n := by
+    apply List.map_congr_left; intro n _; omega
+  have a4 : ((cells nh nv).map fun n => 3 * (4 * n + 1) + 0) = (cells nh nv).map fun n => 3 + 12 * n := by
+    apply List.map_congr_left; intro n _; omega
+  have a5 : ((cells nh nv).map fun n => 3 * (4 * n + 1) + 2) = (cells nh nv).map fun n => 5 + 12 * n := by
+    apply List.map_congr_left; intro n _; omega
+  have a6 : ((cells nh nv).map fun n => 3 * (4 * n + 3) + 0) = (cells nh nv).map fun n => 9 + 12 * n := by
+    apply List.map_congr_left; intro n _; omega
+  have a7 : ((cells nh nv).map fun n => 3 * (2 + 4 * n) + 1) = (cells nh nv).map fun n => 7 + 12 * n := by
+    apply List.map_congr_left; intro n _; omega
+  have a8 : ((cells nh nv).map fun n => 3 * (3 + 4 * n) + 1) = (cells nh nv).map fun n => 10 + 12 * n := by
+    apply List.map_congr_left; intro n _; omega
+  have a9 : ((cells nh nv).map fun n => 3 * (3 + 4 * n) + 2) = (cells nh nv).map fun n => 11 + 12 * n := by
+    apply List.map_congr_left; intro n _; omega
+  have b1 : ((cells nh nv).map fun n => 3 * (1 + 4 * nc nh nv n 1 0) + 1) = ((cells nh nv).map fun n => nc nh nv n 1 0).map fun m => 4 + 12 * m := by
+    rw [List.map_map]; apply List.map_congr_left; intro n _; simp only [Function.comp]; omega
+  have c1 : ((cells nh nv).map fun n => 3 * (4 * nc nh nv n 0 1) + 1) = ((cells nh nv).map fun n => nc nh nv n 0 1).map fun m => 1 + 12 * m := by
+    rw [List.map_map]; apply List.map_congr_left; intro n _; simp only [Function.comp]; omega
+  have d1 : ((cells nh nv).map fun n => 3 * (4 * nc nh nv n 1 1) + 2) = ((cells nh nv).map fun n => nc nh nv n 1 1).map fun m => 2 + 12 * m := by
+    rw [List.map_map]; apply List.map_congr_left; intro n _; simp only [Function.comp]; omega
+  rw [a1, a2, a3, a4, a5, a6, a7, a8, a9, b1, c1, d1]
+  rw [cnt12 nh nv _ pid 0 q k hq hk (by decide), cnt12 nh nv _ pid 8 q k hq hk (by decide), cnt12 nh nv _ pid 6 q k hq hk (by decide),
+    cnt12 nh nv _ pid 3 q k hq hk (by decide), cnt12 nh nv _ pid 5 q k hq hk (by decide), cnt12 nh nv _ pid 9 q k hq hk (by decide),
+    cnt12 nh nv _ pid 7 q k hq hk (by decide), cnt12 nh nv _ pid 10 q k hq hk (by decide), cnt12 nh nv _ pid 11 q k hq hk (by decide),
+    cnt12 nh nv _ p10 4 q k hq hk (by decide), cnt12 nh nv _ p01 1 q k hq hk (by decide), cnt12 nh nv _ p11 2 q k hq hk (by decide)]
+  interval_cases k <;> simp
+
+/-- **C10 (honeycomb colouring, every size)**: in the colouring `honeycomb_lattice(…, return_coloring=True)` supplies, every
+    vertex has exactly one edge end of each of the three colours: the colouring is a proper 3-edge-colouring for all sizes -/
+theorem honeycomb_colouring_proper (nh nv : Nat) (hh : 0 < nh) (hv : 0 < nv) (v k : Nat) (hvlt : v < 4 * (nh * nv)) (hk : k < 3) :
+    let zs := (honeycomb nh nv).zip (honeycombColouring nh nv)
+    zs.countP (fun z => decide (z.1.1.1 = v ∧ z.2 = k)) + zs.countP (fun z => decide (z.1.1.2 = v ∧ z.2 = k)) = 1 := by
+  intro zs
+  have hz : zs = honeycombColoured nh nv := honeycomb_zip nh nv
+  have hc : ∀ z ∈ zs, z.2 < 3 := by
+    rw [hz]; unfold honeycombColoured
+    intro z hzm
+    simp only [List.mem_append, List.mem_flatMap, List.mem_map, List.mem_cons, List.not_mem_nil, or_false] at hzm
+    rcases hzm with ((⟨n, _, h | h | h⟩ | ⟨n, _, h⟩ | ⟨n, _, h⟩) | ⟨n, _, h⟩) <;> (subst h; simp)
+  rw [← colEnds_count zs hc v k hk, hz]
+  exact honeycombColoured_codes nh nv hh hv _ (by omega)
+
+/-- the colour list has one entry per edge -/
+theorem honeycomb_colouring_length (nh nv : Nat) : (honeycombColouring nh nv).length = (honeycomb nh nv).length := by
+  unfold honeycomb honeycombColouring
+  simp only [List.length_append, List.length_flatMap, List.length_map, List.length_cons, List.length_nil, List.map_const', List.sum_replicate]
+  simp
+  omega
+
+
+/-- the literal tables of `honeycomb_lattice` and `hex_square_oct_lattice` in the model are the ones the source holds on this run -/
+theorem honey_tables_tie :
+    GenT.honey_internal = [(0, 1), (2, 1), (2, 3)] ∧ GenT.honey_coloring_blocks = [[0, 2, 0], [1, 1], [2]] ∧
+    GenT.hso_internal = [(0, 1), (1, 2), (2, 3), (3, 4), (4, 5), (5, 0)] := by decide
+
+example : let zs := (honeycomb 2 3).zip (honeycombColouring 2 3)
+    zs.countP (fun z => decide (z.1.1.1 = 13 ∧ z.2 = 1)) + zs.countP (fun z => decide (z.1.1.2 = 13 ∧ z.2 = 1)) = 1 := by decide
+
+end HoneycombColouring
+
+
+section Square
+open G10
+
+/-- `(i + n − 1) % n` is the predecessor on the cycle -/
+theorem pred_mod (n i : Nat) (hi : i < n) : (i + n - 1) % n = if i = 0 then n - 1 else i - 1 := by
+  by_cases h0 : i = 0
+  · subst h0; simp only [Nat.zero_add, if_true]; exact Nat.mod_eq_of_lt (by omega)
+  · rw [if_neg h0]
+    have : i + n - 1 = (i - 1) + n := by omega
+    rw [this, Nat.add_mod_right]; exact Nat.mod_eq_of_lt (by omega)
+
+theorem pred_perm (n : Nat) : ((List.range n).map fun i => (i + n - 1) % n).Perm (List.range n) := by
+  have hnd : ((List.range n).map fun i => (i + n - 1) % n).Nodup := by
+    refine (List.nodup_map_iff_inj_on List.nodup_range).mpr ?_
+    intro a ha b hb hab
+    rw [List.mem_range] at ha hb
+    rw [pred_mod n a ha, pred_mod n b hb] at hab
+    split at hab <;> split at hab <;> omega
+  have hsub : ((List.range n).map fun i => (i + n - 1) % n) ⊆ List.range n := by
+    intro x hx
+    obtain ⟨i, hi, rfl⟩ := List.mem_map.mp hx
+    rw [List.mem_range] at hi ⊢
+    exact Nat.mod_lt _ (by omega)
+  exact (hnd.subperm hsub).perm_of_length_le (by simp)
+
+/-- row-major enumeration of an `nx × ny` grid is `range (nx·ny)` -/
+theorem grid_range (nx ny : Nat) :
+    ((List.range nx).flatMap fun a => (List.range ny).map fun b => a * ny + b) = List.range (nx * ny) := by
+  induction nx with
+  | zero => simp
+  | succ n ih =>
+    rw [List.range_succ, List.flatMap_append, ih, Nat.succ_mul, List.range_add]
+    simp
+
+/-- relabelling rows by a permutation `σ` and columns by a permutation `τ` permutes the grid -/
+theorem grid_perm (nx ny : Nat) (σ τ : Nat → Nat) (hσ : ((List.range nx).map σ).Perm (List.range nx))
+    (hτ : ((List.range ny).map τ).Perm (List.range ny)) :
+    (((List.range nx).flatMap fun i => (List.range ny).map fun j => (i, j)).map fun p => σ p.1 * ny + τ p.2).Perm
+      (List.range (nx * ny)) := by
+  rw [← grid_range]
+  have e : (((List.range nx).flatMap fun i => (List.range ny).map fun j => (i, j)).map fun p => σ p.1 * ny + τ p.2)
+      = ((List.range nx).map σ).flatMap fun a => ((List.range ny).map τ).map fun b => a * ny + b := by
+    rw [List.map_flatMap, List.flatMap_map]
+    simp [List.map_map, Function.comp_def]
+  rw [e]
+  refine (List.Perm.flatMap_right _ hσ).trans ?_
+  apply List.Perm.flatMap_left
+  intro a _
+  exact hτ.map _
+
+theorem id_perm (n : Nat) : ((List.range n).map fun i => i).Perm (List.range n) := by simp
+
+/-- **C10 (square lattice, every size)**: every one of the `n_x·n_y` vertices of `square_lattice(n_x, n_y)` has exactly four
+    edge ends -/
+theorem square_tetravalent (nx ny : Nat) (v : Nat) (hv : v < nx * ny) : degIn (square nx ny) v = 4 := by
+  have c := fun σ τ hσ hτ => (grid_perm nx ny σ τ hσ hτ).count_eq v
+  have one : (List.range (nx * ny)).count v = 1 := List.count_eq_one_of_mem List.nodup_range (List.mem_range.mpr hv)
+  unfold square degIn
+  simp only [List.map_append, List.map_map, Function.comp_def, List.count_append]
+  have h1 := c (fun i => (i + nx - 1) % nx) (fun j => j) (pred_perm nx) (id_perm ny)
+  have h2 := c (fun i => i) (fun j => (j + ny - 1) % ny) (id_perm nx) (pred_perm ny)
+  have h3 := c (fun i => i) (fun j => j) (id_perm nx) (id_perm ny)
+  rw [h1, h2, h3, one]
+
+example : degIn (square 3 4) 7 = 4 := by decide
+
+
+end Square
+
 end C10
